@@ -607,12 +607,11 @@ class Gen:
             if e.ty == NAT and r.random() < 0.3:
                 ann = TYCODE[INT]        # the variable keeps the type of its initialiser (erg wraps it in Nat)
         i = self.fresh(Info("var", vty, guard, enum=e.enum and not ann))
-        self.info[i].const = (e.tag == E_LIT or (e.tag == E_VAR and self.info[e.args[0]].const)
-                              or (e.tag == E_UN and e.args[0] == UN_NOT and e.args[1].tag == E_LIT))
+        # a variable is a compile-time constant iff it is defined by a literal or by a constant variable
+        # (`v = not(False)` has the type {True} but its value is not known to the evaluator: probed)
+        self.info[i].const = (e.tag == E_LIT or (e.tag == E_VAR and self.info[e.args[0]].const))
         if self.info[i].const:
-            self.info[i].cval = self.const_eval(e.args[1] if e.tag == E_UN else e)
-            if e.tag == E_UN:
-                self.info[i].cval = not self.info[i].cval
+            self.info[i].cval = self.const_eval(e)
             if self.info[i].cval is None and not (e.tag == E_LIT and e.args[0] == L_NONE):
                 self.info[i].const = False
         st = St(S_DEF, [i, ann, e])
